@@ -41,6 +41,9 @@ pub struct ConcCase {
     pub nkeys: u8,
     pub programs: Vec<Vec<COp>>,
     pub directives: Vec<Directive>,
+    /// fail the n-th write to a write-ahead log (1-based) and every later one; None = fault free
+    #[serde(default)]
+    pub wal_fault: Option<u8>,
 }
 
 #[derive(Clone, Debug, Default)]
@@ -78,7 +81,13 @@ fn val_id(v: &[u8]) -> Option<u64> {
 /// Run the programs concurrently and return the recorded history (or an error description).
 fn execute(case: &ConcCase, check_lin: bool) -> Result<(Vec<Rec>, ConcStats), String> {
     let fs = Arc::new(MemFs::new(false));
-    let db = Arc::new(DB::open(options(&fs, &case.cfg)).map_err(|e| format!("open failed: {e:?}"))?);
+    let ffs = Arc::new(crate::faultfs::FaultFs::new(fs.clone()));
+    let fsd: Arc<dyn raindb::fs::FileSystem> = ffs.clone();
+    let db = Arc::new(DB::open(crate::engine::options_dyn(fsd, &case.cfg)).map_err(|e| format!("open failed: {e:?}"))?);
+    let faulty = case.wal_fault.is_some();
+    if let Some(n) = case.wal_fault {
+        *ffs.ctl.write_filter.lock().unwrap() = Some(("/wal/".to_string(), n.max(1) as i64, true));
+    }
     let nk = (case.nkeys as usize).clamp(1, KEYS.len());
     let clock = Arc::new(AtomicU64::new(1));
     let recs: Arc<Mutex<Vec<Rec>>> = Arc::new(Mutex::new(vec![]));
@@ -115,6 +124,7 @@ fn execute(case: &ConcCase, check_lin: bool) -> Result<(Vec<Rec>, ConcStats), St
                                 let v = make_value(id, Val { len: 8 + *len as u32, compressible: false });
                                 match db.put(WriteOptions::default(), KEYS[k as usize].to_vec(), v) {
                                     Ok(()) => effects.push((k, KKind::Write { val: Some(id), maybe: false })),
+                                    Err(_) if faulty => effects.push((k, KKind::Write { val: Some(id), maybe: true })),
                                     Err(e) => errors.lock().unwrap().push(format!("put returned {e:?} in a fault-free run")),
                                 }
                             }
@@ -124,6 +134,7 @@ fn execute(case: &ConcCase, check_lin: bool) -> Result<(Vec<Rec>, ConcStats), St
                                 let v = make_value(id, Val { len: 40_000 + *n as u32 * 1000, compressible: false });
                                 match db.put(WriteOptions::default(), KEYS[k as usize].to_vec(), v) {
                                     Ok(()) => effects.push((k, KKind::Write { val: Some(id), maybe: false })),
+                                    Err(_) if faulty => effects.push((k, KKind::Write { val: Some(id), maybe: true })),
                                     Err(e) => errors.lock().unwrap().push(format!("put returned {e:?} in a fault-free run")),
                                 }
                             }
@@ -131,6 +142,7 @@ fn execute(case: &ConcCase, check_lin: bool) -> Result<(Vec<Rec>, ConcStats), St
                                 let k = *k % nk as u8;
                                 match db.delete(WriteOptions::default(), KEYS[k as usize].to_vec()) {
                                     Ok(()) => effects.push((k, KKind::Write { val: None, maybe: false })),
+                                    Err(_) if faulty => effects.push((k, KKind::Write { val: None, maybe: true })),
                                     Err(e) => errors.lock().unwrap().push(format!("delete returned {e:?} in a fault-free run")),
                                 }
                             }
@@ -157,6 +169,11 @@ fn execute(case: &ConcCase, check_lin: bool) -> Result<(Vec<Rec>, ConcStats), St
                                             effects.push((k, KKind::Write { val: v, maybe: false }));
                                         }
                                     }
+                                    Err(_) if faulty => {
+                                        for (k, v) in eff {
+                                            effects.push((k, KKind::Write { val: v, maybe: true }));
+                                        }
+                                    }
                                     Err(e) => errors.lock().unwrap().push(format!("apply returned {e:?} in a fault-free run")),
                                 }
                             }
@@ -169,6 +186,7 @@ fn execute(case: &ConcCase, check_lin: bool) -> Result<(Vec<Rec>, ConcStats), St
                                         None => errors.lock().unwrap().push(format!("get({}) returned a {}-byte value nobody wrote", hex(KEYS[k as usize]), v.len())),
                                     },
                                     Err(RainDBError::KeyNotFound) => effects.push((k, KKind::Read { val: None })),
+                                    Err(_) if faulty => {}
                                     Err(e) => errors.lock().unwrap().push(format!("get({}) returned {e:?} in a fault-free run", hex(KEYS[k as usize]))),
                                 }
                             }
@@ -227,6 +245,7 @@ fn execute(case: &ConcCase, check_lin: bool) -> Result<(Vec<Rec>, ConcStats), St
             let kind = match db.get(ReadOptions::default(), KEYS[k]) {
                 Ok(v) => KKind::Read { val: val_id(&v) },
                 Err(RainDBError::KeyNotFound) => KKind::Read { val: None },
+                Err(_) if faulty => continue,
                 Err(e) => return Err(format!("final get({}) returned {e:?}", hex(KEYS[k]))),
             };
             let resp = clock.fetch_add(1, Ordering::SeqCst);
@@ -260,6 +279,13 @@ fn execute(case: &ConcCase, check_lin: bool) -> Result<(Vec<Rec>, ConcStats), St
     }
     if stats.holds > 0 {
         stats.classes.push("directive_held_a_thread");
+    }
+    if faulty && ffs.ctl.fired.load(Ordering::SeqCst) {
+        stats.classes.push("wal_append_failed_under_concurrent_writers");
+        if d(Counter::GroupCommitMulti) > 0 {
+            stats.classes.push("wal_fault_with_group_commit");
+        }
+        stats.nontrivial = true;
     }
     let recs = std::mem::take(&mut *recs.lock().unwrap());
     if recs.iter().any(|r| r.is_get && r.ev1 > r.ev0) {
@@ -344,7 +370,23 @@ pub fn c05_strategy(forced: bool) -> BoxedStrategy<ConcCase> {
                 if forced { prop::collection::vec(directive(nt), 1..=4).boxed() } else { Just(vec![]).boxed() },
             )
         })
-        .prop_map(|(cfg, nkeys, programs, directives)| ConcCase { cfg, nkeys, programs, directives })
+        .prop_map(|(cfg, nkeys, programs, directives)| ConcCase { cfg, nkeys, programs, directives, wal_fault: None })
+        .boxed()
+}
+
+/// Fault variant: forced schedules that hold writers around the WAL append (so that followers queue
+/// up and group commits form) plus one sticky failure of the n-th WAL write.
+pub fn c05_fault_strategy() -> BoxedStrategy<ConcCase> {
+    (c05_strategy(true), 1u8..12, prop::collection::vec((0i32..4, 0u32..4, 20u32..80), 1..3))
+        .prop_map(|(mut c, n, holds)| {
+            c.wal_fault = Some(n);
+            for (role, nth, ms) in holds {
+                if (role as usize) < c.programs.len() {
+                    c.directives.push(Directive { role, point: "write.before_wal".into(), nth, max_hold_ms: ms });
+                }
+            }
+            c
+        })
         .boxed()
 }
 
@@ -366,7 +408,7 @@ pub fn c09_strategy() -> BoxedStrategy<ConcCase> {
                 prop::collection::vec(prop::collection::vec(op.clone(), 20..70), nt),
             )
         })
-        .prop_map(|(cfg, programs)| ConcCase { cfg, nkeys: 6, programs, directives: vec![] })
+        .prop_map(|(cfg, programs)| ConcCase { cfg, nkeys: 6, programs, directives: vec![], wal_fault: None })
         .boxed()
 }
 
@@ -517,6 +559,7 @@ pub fn worker_c05(ctx: &WorkerCtx) -> WorkerResult {
     let res = RefCell::new(r0);
     campaign(ctx, "C05", c05_strategy(true), scale(forced), 51, false, &res);
     campaign(ctx, "C05", c05_strategy(false), scale(natural), 52, false, &res);
+    campaign(ctx, "C05", c05_fault_strategy(), scale(natural), 53, false, &res);
     res.into_inner()
 }
 
